@@ -154,6 +154,12 @@ def trace_operand(body, op, extra=(), **kw):
     if op['k'] == 'const':
         if 'static' in op:
             return {Origin('static', op['static'], extra)}
+        if 'promoted' in op and 'uneval_uid' in op:
+            # a promoted constant (e.g. `&Enum::Variant` used as a comparison operand): look into
+            # its own little MIR body and trace what it returns
+            pb = body.facts.promoted.get('%s::promoted[%d]' % (op['uneval_uid'], op['promoted']))
+            if pb is not None:
+                return trace_local(pb, 0, tuple(extra), **{k: v for k, v in kw.items() if k in ('through_calls', 'try_transparent')})
         return {Origin('const', op, extra)}
     if op['k'] in ('copy', 'move'):
         return trace_place(body, op['pl'], extra, **kw)
